@@ -6,9 +6,26 @@ import Xandikos.Py.UrlProofs
 import Xandikos.Py.PathProofs2
 import Xandikos.Store.UidProofs
 import Xandikos.Http.World
+import Xandikos.Tie.HrefEq
 
 namespace Xandikos.Theorems.C16
 open Xandikos Xandikos.Http Xandikos.Py
+
+/-- **the code is the model**: `webdav.ensure_trailing_slash`, as translated from /repo on this
+    run, is the function the child-href and Location rules of the model are built with -/
+theorem code_is_model_ensure_trailing_slash (h : String) :
+    String.ofList (Generated.ensure_trailing_slash h.toList) = ensureTrailingSlash h :=
+  Tie.ensure_trailing_slash_eq h
+
+/-- on the translated code: the result always ends in `/` and only ever appends -/
+theorem ensure_trailing_slash_ends_in_slash (h : List Char) :
+    (Generated.ensure_trailing_slash h).getLast? = some '/' ∧
+      (Generated.ensure_trailing_slash h = h ∨ Generated.ensure_trailing_slash h = h ++ ['/']) := by
+  unfold Generated.ensure_trailing_slash
+  rw [Tie.endsWith_slash]
+  by_cases hl : h.getLast? = some '/'
+  · simp [hl]
+  · simp [hl]
 
 /-- **Every emitted href decodes to the path it was built from** — for every string, hence for
     member names with spaces, `%`, `#`, `?`, `;`, `+`, `&`, `:` and non-ASCII characters, under
